@@ -14,3 +14,5 @@ print('mutated files:',n)
 P
 cd /verif && bin/check $ID quick 2>&1 | grep -E "VIOLATION|HARNESS-ERROR|KNOWN|quick:" | head -5
 git -C /repo checkout -- .
+# restore evidence: what is committed must come from runs on the unchanged tree
+git -C /verif checkout -- evidence 2>/dev/null; git -C /verif clean -fdq evidence/replays 2>/dev/null
